@@ -688,6 +688,10 @@ func (w *WAL) AppendBatch(entries []*Entry) (uint64, error) {
 		}
 
 		totalSize += HeaderSize + payloadSize
+		if payloadSize > MaxRecordSize {
+			// The entry is written as several fragments, each with its own header
+			totalSize += HeaderSize * (payloadSize/MaxRecordSize + 1)
+		}
 	}
 
 	// Ensure writer buffer is large enough for atomic write
@@ -713,7 +717,18 @@ func (w *WAL) AppendBatch(entries []*Entry) (uint64, error) {
 	// All entries in the batch share the same sequence number
 	for i, entry := range entries {
 		verifhook.At("wal.batch.between_records")
-		// Write the entry using its original type and the same sequence number
+		// Write the entry using its original type and the same sequence number,
+		// fragmenting it like Append does when it exceeds one physical record
+		entrySize := 1 + 8 + 4 + len(entry.Key)
+		if entry.Type != OpTypeDelete {
+			entrySize += 4 + len(entry.Value)
+		}
+		if entrySize > MaxRecordSize {
+			if err := w.writeFragmentedRecord(entry.Type, startSeqNum, entry.Key, entry.Value); err != nil {
+				return 0, fmt.Errorf("failed to write entry %d: %w", i, err)
+			}
+			continue
+		}
 		if err := w.writeRecord(RecordTypeFull, entry.Type, startSeqNum, entry.Key, entry.Value); err != nil {
 			return 0, fmt.Errorf("failed to write entry %d: %w", i, err)
 		}
@@ -780,6 +795,10 @@ func (w *WAL) AppendBatchWithSequence(entries []*Entry, startSequence uint64) (u
 		}
 
 		totalSize += HeaderSize + payloadSize
+		if payloadSize > MaxRecordSize {
+			// The entry is written as several fragments, each with its own header
+			totalSize += HeaderSize * (payloadSize/MaxRecordSize + 1)
+		}
 	}
 
 	// Ensure writer buffer is large enough for atomic write
@@ -803,7 +822,18 @@ func (w *WAL) AppendBatchWithSequence(entries []*Entry, startSequence uint64) (u
 	// Now write all entries atomically (no intermediate flushes)
 	// All entries in the batch share the same sequence number
 	for i, entry := range entries {
-		// Write the entry using its original type and the same sequence number
+		// Write the entry using its original type and the same sequence number,
+		// fragmenting it like Append does when it exceeds one physical record
+		entrySize := 1 + 8 + 4 + len(entry.Key)
+		if entry.Type != OpTypeDelete {
+			entrySize += 4 + len(entry.Value)
+		}
+		if entrySize > MaxRecordSize {
+			if err := w.writeFragmentedRecord(entry.Type, startSeqNum, entry.Key, entry.Value); err != nil {
+				return 0, fmt.Errorf("failed to write entry %d: %w", i, err)
+			}
+			continue
+		}
 		if err := w.writeRecord(RecordTypeFull, entry.Type, startSeqNum, entry.Key, entry.Value); err != nil {
 			return 0, fmt.Errorf("failed to write entry %d: %w", i, err)
 		}
